@@ -111,7 +111,7 @@ class BaseRenderer(eqx.Module):
         fft_shift_arr_x = jnp.exp(
             jax.lax.complex(0.0, -1.0)
             * 2.0
-            * 3.1415
+            * jnp.pi
             * -1
             * (self.psf_shape[0] / 2.0 - 0.5)
             * self.FX
@@ -119,7 +119,7 @@ class BaseRenderer(eqx.Module):
         fft_shift_arr_y = jnp.exp(
             jax.lax.complex(0.0, -1.0)
             * 2.0
-            * 3.1415
+            * jnp.pi
             * -1
             * (self.psf_shape[1] / 2.0 - 0.5)
             * self.FY
